@@ -47,10 +47,10 @@ UNIT = {
                     'at entry the table is well formed: every node sits in the chain of bucket hash % size, chains are acyclic and end in 0, num_entries counts them'],
     'unverified_surroundings': {'C01': ['unique_table (per-variable dispatch), forest::createReducedNode uses find before add (U-reduce)']},
     'jobs': [
-        job('ut_find', ['C99'], defines=['UT_JOB_FIND']),
-        job('ut_add', ['C99'], defines=['UT_JOB_ADD']),
-        job('ut_remove', ['C99'], defines=['UT_JOB_REMOVE']),
-        job('ut_expand', ['C99']),
-        job('ut_shrink', ['C99']),
+        job('ut_find', ['C01'], defines=['UT_JOB_FIND']),
+        job('ut_add', ['C01'], defines=['UT_JOB_ADD']),
+        job('ut_remove', ['C01'], defines=['UT_JOB_REMOVE']),
+        job('ut_expand', ['C01']),
+        job('ut_shrink', ['C01']),
     ],
 }
